@@ -162,6 +162,16 @@ pub(crate) fn big5_map(items: &[(u8, u32, u16)]) -> BTreeMap<u32, u16> {
         };
         let code = match ch {
             Some(c) => rm::big5_encode(c).map(u32::from),
+            None if (rnd >> 20) & 3 != 0 => {
+                // a code whose trail byte is the lead byte itself (0xA4A4), so that the lead
+                // byte's own value lies inside its sub-header's low-byte range
+                let lead = 0xA1 + (rnd >> 8) % 0x5E;
+                if (rnd >> 22) & 1 == 1 && *gid != 0 {
+                    m.insert(lead << 8 | (lead - 1).max(0xA1), gid.wrapping_add(7) | 1);
+                    m.insert(lead << 8 | (lead + 1).min(0xFE), gid.wrapping_add(9) | 1);
+                }
+                Some(lead << 8 | lead)
+            }
             None => {
                 // a raw two-byte code (possibly outside the encoder's image)
                 let lead = 0x81 + (rnd >> 8) % 0x7E;
@@ -211,6 +221,10 @@ fn rec_strategy() -> impl Strategy<Value = RecModel> {
         1 => runs().prop_map(move |r| {
             let mut m = build_map(&r, Domain::Bmp, 0xFFFF, false);
             let leads: BTreeSet<u32> = m.keys().filter(|c| **c >= 0x100).map(|c| *c >> 8).collect();
+            // every other lead byte also has the code whose low byte is the lead byte itself
+            for l in leads.iter().filter(|l| **l % 2 == 0) {
+                m.entry(*l << 8 | *l).or_insert((*l as u16).wrapping_mul(257) | 1);
+            }
             m.retain(|c, _| *c >= 0x100 || !leads.contains(c));
             mk(3, 2, 2, m)
         }),
@@ -416,7 +430,8 @@ fn check_subtable(r: &RecModel, e: &Encoded, cmap_bytes: &[u8], offset: u32, ext
         probes.insert(*p & 0xFFFF);
         probes.insert(*p % 0x110000);
     }
-    let sweep16 = matches!(r.format, 2 | 4 | 6) && e.segments <= 96;
+    // format 2 is always swept: the lookup/enumeration relation below is asserted on every code
+    let sweep16 = r.format == 2 || (matches!(r.format, 4 | 6) && e.segments <= 96);
     let sweep: Box<dyn Iterator<Item = u32>> = if r.format == 0 {
         Box::new(0..256u32)
     } else if sweep16 {
@@ -427,9 +442,67 @@ fn check_subtable(r: &RecModel, e: &Encoded, cmap_bytes: &[u8], offset: u32, ext
     if sweep16 {
         rec.class("sweep:all-65536-codes");
     }
+    // the subtable's own enumeration (first glyph listed per code, glyph != 0): "enumerating a
+    // subtable's mappings lists exactly the (code, glyph) pairs that single lookups return" needs
+    // no expected value, so it is asserted on every probed code, ambiguous or not
+    let mut listed: Vec<(u32, u16)> = Vec::new();
+    st.mappings_fn(|c, g| listed.push((c, g)))
+        .map_err(|err| fail("mappings_fn-error", format!("format {}: {:?}", r.format, err)))?;
+    // dense for the 16-bit code space, a map above it
+    let mut listed_bmp: Vec<u16> = vec![0; 0x10000];
+    let mut listed_high: std::collections::HashMap<u32, u16> = std::collections::HashMap::new();
+    for (c, g) in &listed {
+        if *g != 0 {
+            if *c <= 0xFFFF {
+                if listed_bmp[*c as usize] == 0 {
+                    listed_bmp[*c as usize] = *g;
+                }
+            } else {
+                listed_high.entry(*c).or_insert(*g);
+            }
+        }
+    }
     let mut n = 0u64;
     for code in probes.iter().copied().chain(sweep) {
         let exp = r.map.get(&code).copied().unwrap_or(0);
+        if !(r.format == 2 && code > 0xFFFF) {
+            let got = norm(st.map_glyph(code), code, r.format, "map_glyph")?;
+            let le = if code <= 0xFFFF { listed_bmp[code as usize] } else { listed_high.get(&code).copied().unwrap_or(0) };
+            if got != le {
+                let hi = (code >> 8) as u8;
+                let lo = code & 0xFF;
+                if r.format == 2 && (0x100..=0xFFFF).contains(&code) && !leads.contains(&hi) && !leads.contains(&(lo as u8)) && le == 0 && Some(&got) == r.map.get(&lo) {
+                    // defect model: a two-byte code whose high byte is a single-byte character
+                    // (subHeaderKeys[high] == 0) is answered with the glyph of its low byte
+                    stats.f2_single_alias.get_or_insert_with(|| {
+                        format!(
+                            "format 2: map_glyph({:#06X}) = {} = glyph of the single-byte character {:#04X}; subHeaderKeys[{:#04X}] is 0, so {:#06X} is not a character code and mappings_fn does not list it",
+                            code, got, lo, hi, code
+                        )
+                    });
+                } else if e.zero_entry_with_delta.contains_key(&code) {
+                    // reported below with the model comparison
+                } else {
+                    return Err(fail(
+                        &format!("lookup-vs-enumeration-f{}", r.format),
+                        format!(
+                            "({},{}) format {}: map_glyph({:#X}) = {} but mappings_fn lists {} for that code (model {})",
+                            r.platform, r.encoding, r.format, code, got, le, exp
+                        ),
+                    ));
+                }
+            }
+            if let Some(o) = &owned {
+                let og = norm(o.map_glyph(code), code, r.format, "owned map_glyph")?;
+                if og != got {
+                    return Err(fail(
+                        "owned-differs",
+                        format!("format {} code {:#X}: owned::CmapSubtable::map_glyph = {}, borrowed = {}", r.format, code, og, got),
+                    ));
+                }
+            }
+            stats.relation += 1;
+        }
         if r.format == 2 {
             if code > 0xFFFF {
                 // a 32-bit code is not a character of a 16-bit subtable
@@ -468,15 +541,6 @@ fn check_subtable(r: &RecModel, e: &Encoded, cmap_bytes: &[u8], offset: u32, ext
                 format!("({},{}) format {}: map_glyph({:#X}) = {}, model says {}", r.platform, r.encoding, r.format, code, got, exp),
             ));
         }
-        if let Some(o) = &owned {
-            let og = norm(o.map_glyph(code), code, r.format, "owned map_glyph")?;
-            if og != got {
-                return Err(fail(
-                    "owned-differs",
-                    format!("format {} code {:#X}: owned::CmapSubtable::map_glyph = {}, borrowed = {}", r.format, code, og, got),
-                ));
-            }
-        }
         if exp != 0 {
             stats.hits += 1;
         }
@@ -485,9 +549,6 @@ fn check_subtable(r: &RecModel, e: &Encoded, cmap_bytes: &[u8], offset: u32, ext
     stats.probes += n;
 
     // enumeration: exactly the model's pairs (glyph != 0), each code once
-    let mut listed: Vec<(u32, u16)> = Vec::new();
-    st.mappings_fn(|c, g| listed.push((c, g)))
-        .map_err(|err| fail("mappings_fn-error", format!("format {}: {:?}", r.format, err)))?;
     let mut set: BTreeMap<u32, u16> = BTreeMap::new();
     for (c, g) in &listed {
         if *g == 0 {
@@ -541,6 +602,8 @@ struct Stats {
     excluded_mac: u64,
     zero_entry: Option<String>,
     f2_alias: Option<String>,
+    f2_single_alias: Option<String>,
+    relation: u64,
     f14_selected: Option<String>,
 }
 
@@ -796,7 +859,7 @@ fn check_case_inner(case: &Case, rec: &mut Rec, full_sweep: bool) -> CaseResult 
 fn finish(case: &Case, rec: &mut Rec, stats: Stats) -> CaseResult {
     rec.evaluations(stats.probes);
     rec.set_nontrivial(stats.hits > 0);
-    rec.class_if(stats.excluded_f2 > 0, "excluded:format-2-ambiguous-code");
+    rec.class_if(stats.excluded_f2 > 0, "excluded:format-2-ambiguous-code(value only; lookup/enumeration relation still asserted)");
     rec.class_if(stats.excluded_mac > 0, "excluded:mac-roman-disputed-char");
     rec.sample(|| {
         format!(
@@ -813,6 +876,9 @@ fn finish(case: &Case, rec: &mut Rec, stats: Stats) -> CaseResult {
     }
     if let Some(m) = stats.f2_alias {
         return Err(fail("f2-code-above-16-bits-aliased", m));
+    }
+    if let Some(m) = stats.f2_single_alias {
+        return Err(fail("f2-two-byte-code-with-single-byte-high-aliased", m));
     }
     if let Some(m) = stats.f14_selected {
         return Err(fail("format-14-record-selected-as-character-map", m));
